@@ -61,7 +61,8 @@ func filters() []string {
 // ---- state space --------------------------------------------------------------------------
 
 func valueAlphabet() []any {
-	return []any{"a", "10", 10.0, 10.5, -1.0, true, false, []any{"a", "b"}, []any{10.0, "zz"}}
+	// numbers also as the Go types a caller of the embedded API would naturally use
+	return []any{"a", "10", 10.0, 10.5, -1.0, true, false, []any{"a", "b"}, []any{10.0, "zz"}, int(10), int64(-1), float32(10.5)}
 }
 
 type mop struct {
